@@ -25,6 +25,7 @@ mod c17;
 mod c15;
 mod c04;
 mod c09;
+mod c06;
 
 use std::path::PathBuf;
 
@@ -50,6 +51,7 @@ fn main() {
     if cmd == "c01-case" { c01::replay(&argv[2]); return; }
     if cmd == "c09-obs" { c09::obs_child(&argv[2]); return; }
     if cmd == "c09-case" { c09::replay(&argv[2]); return; }
+    if cmd == "c06-case" { c06::replay(&argv[2], argv.get(3).map(|s| s.as_str())); return; }
     if cmd == "gcprobe" { gcprobe::run(&argv[2]); return; }
     if cmd == "probe" { if argv[2] == "handles" { probes::handles(); } else if argv[2] == "c02-guard-children" { probes::guard_children(); } else if argv[2] == "closure-labels" { probes::closure_labels(); } else { probes::run(&argv[2]); } return; }
     let mut a = Args { prop: argv[2].clone(), seed: 1, n: 300, tier: "quick".into(), out: PathBuf::from("work") };
@@ -84,6 +86,7 @@ fn main() {
         ("gen", "C15") => c15::gen(&a),
         ("gen", "C04") => c04::gen(&a),
         ("gen", "C09") => c09::gen(&a),
+        ("gen", "C06") => c06::gen(&a),
         _ => { eprintln!("unknown command/property"); std::process::exit(2); }
     }
 }
